@@ -149,6 +149,17 @@ Definition backward (g : arena) (w : weights) (mode : bool) (root : nat) (seed :
     | Some (ord, z, _) => run_sweep g w mode root seed ord z b
     end.
 
+(* A call that fails and is caught by the caller.  `r.backward(g)` with a gradient of the wrong shape raises AFTER the
+   ordering loop (the shape check follows it), i.e. after the loop's zero_() calls; a root that does not require grad is
+   refused before anything happens.  The caller continues with these buffers. *)
+Definition backward_fails (g : arena) (root : nat) (b : bufs) : bufs :=
+  if negb (req (getn g root)) then b
+  else
+    match dfs g root (present_of g b) (dfs_fuel g) with
+    | None => b
+    | Some (_, z, _) => fold_left zero_buf z b
+    end.
+
 (* ------------------------------------------------------------------------------------------------ *)
 (* Specification side: the sum over all paths, as naively as possible (explicit path enumeration).   *)
 
@@ -212,6 +223,13 @@ Definition expected (g : arena) (w : weights) (mode : bool) (root : nat) (seed :
       if releases g mode root v then None
       else Some (vadd A (leaf_part g b v) (pathval g w root v seed))
     else b v.
+
+(* the same in closed form *)
+Definition fails_expected (g : arena) (root : nat) (b : bufs) : bufs :=
+  fun v =>
+    if req (getn g root) && reachb g root v && negb (v =? root) && req (getn g v) &&
+       (negb (is_some (b v)) || negb (is_leaf (getn g v)))
+    then Some (vzero A) else b v.
 
 End Sweep.
 
